@@ -22,8 +22,11 @@ ASSUMPTIONS = ["0 <= lo <= hi <= 1; motifs are non-empty ACGT strings; GC bounds
 
 @st.composite
 def cases(draw, tier):
-    k = draw(st.sampled_from([1, 2, 3, 3, 4, 4, 5, 5, 6, 8, 10, 16, 33, 40, 64]))
+    k = draw(st.sampled_from([1, 2, 3, 3, 4, 4, 5, 5, 6, 7, 7, 8, 9, 10, 16, 33, 40, 64]))
     cfg = draw(gens.local_filter_cfgs(k, decidable=draw(st.integers(0, 3)) > 0))
+    if cfg["motifs"] and draw(st.sampled_from([False, False, True])):
+        # a list that holds a motif together with its own reverse complement
+        cfg = dict(cfg, motifs=list(cfg["motifs"]) + [o.revcomp(cfg["motifs"][0])])
     if cfg["motifs"] is not None and draw(st.booleans()):
         extra = draw(st.sampled_from(["GAG", "AA", "ACA", "TCT", "GC", "AT", "CTC", "A", "CG", "ACGT", "GAATTC"]))
         if len(extra) <= k:
